@@ -220,6 +220,15 @@ def run(case):
             c0 = r0.copy(preserve_owner=False)
             side["detached_copy_equal"] = bool(c0 == r0) and bool(r0 == c0) and c0.countValues() == r0.countValues() \
                 and bool(c0.isEmpty()) == bool(r0.isEmpty())
+            # ... also when the copied tree has an unowned fiber ABOVE the tensor's owned ones; and taking the
+            # copy changes nothing about the original (its count and emptiness are those of the tensor's tree)
+            n0, e0 = int(r0.countValues()), bool(r0.isEmpty())
+            mixed = ft.Fiber([4], [r0])
+            c1 = mixed.copy(preserve_owner=False)
+            side["detached_copy_of_mixed_ownership_equal"] = bool(c1 == mixed) and bool(mixed == c1) \
+                and int(c1.countValues()) == n0 and bool(c1.isEmpty()) == e0
+            side["copy_leaves_original_as_it_was"] = int(mixed.countValues()) == n0 and int(r0.countValues()) == n0 \
+                and bool(r0.isEmpty()) == e0
         except Exception as e:
             side["detached_copy:" + H.err_class(e)] = False
     after = ([H.snapshot(o) for o in objs], [_ranks(t) for t in tensors])
